@@ -74,6 +74,33 @@ Theorem compat_at_any_depth :          (* ... inside any child of any node *)
   Compat constrains (Node nm v (a ++ c :: b)%list) (Node nm v (a ++ c' :: b)%list).
 Proof. exact (compat_inside_proved constrains). Qed.
 
+(* ---- 2b. a new type in a NEW package ----
+   Full statement ("a version that only appends new types ... reports no incompatibility", for a type whose
+   package is new as well): forall o n, supertreeb o n = true (only additions) where the additions are a type
+   under Types and its package under Packages -> check_compat o n = [].
+   Refuted by the current table (finding C18-PKG): Packages is AppendOnly|OrderChangeOnly, and the
+   OrderChangeOnly block of checkConstraint reports NodeModified for any appended or inserted child; moreover the
+   children of Packages come from a Go map, so the same schemas give one or two errors depending on the order: *)
+Lemma table_packages :
+  let c := find_constraint "Packages" constrains in allows_append c = false /\ allows_insert c = false.
+Proof. vm_compute. split; reflexivity. Qed.
+
+Theorem new_package_type_silent_refuted :
+  exists o n n',
+    wfb o = true /\ wfb n = true /\ supertreeb o n = true /\
+    perm_b (pkgs n') (pkgs n) = true /\ n' = set_pkgs n (pkgs n') /\
+    check_compat constrains o n = [mkerr (find_constraint "Packages" constrains) ["AppDef"; "Packages"] NodeModified] /\
+    check_compat constrains o n' = [mkerr (find_constraint "Packages" constrains) ["AppDef"; "Packages"] NodeInserted;
+                                    mkerr (find_constraint "Packages" constrains) ["AppDef"; "Packages"] NodeModified].
+Proof.
+  exists (Node "AppDef" VNil [Node "Types" VNil [Node "app.T" VNil []]; Node "Packages" VNil [Node "test.com/app" (VStr "app") []]]),
+         (Node "AppDef" VNil [Node "Types" VNil [Node "app.T" VNil []; Node "lib.D" VNil []];
+                              Node "Packages" VNil [Node "test.com/app" (VStr "app") []; Node "test.com/lib" (VStr "lib") []]]),
+         (Node "AppDef" VNil [Node "Types" VNil [Node "app.T" VNil []; Node "lib.D" VNil []];
+                              Node "Packages" VNil [Node "test.com/lib" (VStr "lib") []; Node "test.com/app" (VStr "app") []]]).
+  vm_compute. repeat split.
+Qed.
+
 (* ---- 3. removals: a child present in old and absent in new, under a node that exists in both
    trees, is reported at the child's path whatever else changed - for every node whose constraint
    reports removals, which the current table does for fields, types (application and workspace
@@ -244,11 +271,11 @@ Proof. vm_compute. split; reflexivity. Qed.
 Example agrees_satisfies_nonvacuous :
   let n := ex_with 2 (ex_tbl "app.T" [ex_fld "sys.ID" 11; ex_fld "a" 3; ex_fld "c" 4] [Node "c0" (VStr "app.R") []; Node "c1" (VStr "app.R") []]) in
   let t := mkTrace ex_old n (CRemoved ["AppDef"; "Types"; "app.T"; "Fields"; "b"])
-                   [mkerr compat_c_append_only ["AppDef"; "Types"; "app.T"; "Fields"; "b"] NodeRemoved] [] [] in
+                   [mkerr compat_c_append_only ["AppDef"; "Types"; "app.T"; "Fields"; "b"] NodeRemoved] [] [] [] in
   agrees t = true /\ covered constrains t = true /\ satisfies t = true /\
   (* the F15b trace (query argument type changed) is reproduced by the model, not covered, and fails the oracle *)
   let n' := ex_with 1 (ex_qry "app.Q" [ex_fld "z" 4; ex_fld "w" 3] [ex_fld "y" 8]) in
-  let t' := mkTrace ex_old n' (CChanged ["AppDef"; "Types"; "app.Q"; "QueryArgs"]) [] [] [] in
+  let t' := mkTrace ex_old n' (CChanged ["AppDef"; "Types"; "app.Q"; "QueryArgs"]) [] [] [] [] in
   agrees t' = true /\ covered constrains t' = false /\ satisfies t' = false.
 Proof. vm_compute. repeat split. Qed.
 
@@ -257,6 +284,7 @@ Print Assumptions compatible_changes_silent.
 Print Assumptions append_fields_is_compat.
 Print Assumptions insert_type_is_compat.
 Print Assumptions compat_at_any_depth.
+Print Assumptions new_package_type_silent_refuted.
 Print Assumptions removal_reported.
 Print Assumptions removal_reported_fields_types_keys.
 Print Assumptions reorder_reported.
